@@ -2637,6 +2637,23 @@ def _vec_name_value(flow, e, at, near=None):
                         if isinstance(st, ast.Assign) and len(st.targets) == 1 and astx.path(st.targets[0]) == e.id \
                                 and astx.const_str(st.value) is not None:
                             return astx.const_str(st.value)
+            # role variable chosen first, vectors selected by testing it:  if vec_name == 'linear': ... else: ...
+            consts = {astx.const_str(st.value) for st in astx.walk_stmts(flow.fn.node.body)
+                      if isinstance(st, ast.Assign) and len(st.targets) == 1 and astx.path(st.targets[0]) == e.id}
+            if None not in consts and consts:
+                for test, pol in guards(near, flow.fn.node):
+                    for a, apol in conjuncts(test, pol):
+                        if isinstance(a, ast.Compare) and len(a.ops) == 1 and isinstance(a.ops[0], (ast.Eq, ast.NotEq)):
+                            l, r = a.left, a.comparators[0]
+                            if isinstance(r, ast.Name) and r.id == e.id:
+                                l, r = r, l
+                            if isinstance(l, ast.Name) and l.id == e.id and astx.const_str(r) in consts:
+                                eq = apol == isinstance(a.ops[0], ast.Eq)
+                                if eq:
+                                    return astx.const_str(r)
+                                rest = consts - {astx.const_str(r)}
+                                if len(rest) == 1:
+                                    return next(iter(rest))
         v, _ = flow.single(e.id, at)
         if v is not None and astx.const_str(v) is not None:
             return astx.const_str(v)
@@ -2849,6 +2866,8 @@ def _member_eval(flow, test, name, facts, at):
         return all(vals) if isinstance(test.op, ast.And) else any(vals)
     if isinstance(test, ast.UnaryOp) and isinstance(test.op, ast.Not):
         return not _member_eval(flow, test.operand, name, facts, at)
+    if isinstance(test, ast.Constant) and isinstance(test.value, bool):
+        return test.value
     if isinstance(test, ast.Compare) and len(test.ops) == 1:
         op, l, r = test.ops[0], test.left, test.comparators[0]
         if isinstance(op, (ast.In, ast.NotIn)) and isinstance(l, ast.Name) and l.id == name:
@@ -2858,7 +2877,7 @@ def _member_eval(flow, test, name, facts, at):
                 v = facts[k] if k is not None else False
                 return v if isinstance(op, ast.In) else not v
         if isinstance(op, (ast.Is, ast.IsNot)) and isinstance(r, ast.Constant) and r.value is None and \
-                astx.path(l) in ('self.outputs', 'self.inputs'):
+                apath(flow, l, at) in ('self.outputs', 'self.inputs'):
             return isinstance(op, ast.IsNot)     # the recorded tables are present
     raise _NoEval()
 
@@ -2901,17 +2920,13 @@ def units(repo, out):
     flv, flu = func_flow(repo, fv), func_flow(repo, fu)
     nv = [a.arg for a in fv.node.args.args][1]
     nu = [a.arg for a in fu.node.args.args][1]
-    # value side: `return self.outputs[name]` first, then branches whose returned value goes through _conns
+    # value side: `return self.outputs[name]` first, then returns whose value goes through _conns, each under the
+    # conjunction of its enclosing guards
     direct = [st for st in astx.walk_stmts(fv.node.body) if isinstance(st, ast.Return) and
-              isinstance(st.value, ast.Subscript) and astx.path(st.value.value) == 'self.outputs' and
+              isinstance(st.value, ast.Subscript) and apath(flv, st.value.value) == 'self.outputs' and
               isinstance(st.value.slice, ast.Name) and st.value.slice.id == nv]
-    src_ifs = []
-    for st in astx.walk_stmts(fv.node.body):
-        if isinstance(st, ast.If):
-            rets = [r.value for r in astx.walk_stmts(st.body) if isinstance(r, ast.Return) and r.value is not None]
-            own_test_names = astx.names(st.test)
-            if rets and nv in own_test_names and any(_flows_through_conns(st.body, r) for r in rets):
-                src_ifs.append(st)
+    src_rets = [st for st in astx.walk_stmts(fv.node.body) if isinstance(st, ast.Return) and st.value is not None
+                and _flows_through_conns(fv.node.body, st.value)]
     if not direct:
         out.unsure(fv, fv.node, 'Case.__getitem__ does not start by looking the name up in self.outputs')
         return
@@ -2922,10 +2937,14 @@ def units(repo, out):
                 val = 'own'
             else:
                 val = 'own'
-                for st in src_ifs:
-                    if st.lineno < direct[0].lineno:
+                for rt in src_rets:
+                    if rt.lineno < direct[0].lineno:
                         raise _NoEval()
-                    if _member_eval(flv, st.test, nv, facts, flv.g.nodes_of(st)[0]):
+                    conds = []
+                    for test, pol in guards(rt, fv.node):
+                        tv = _member_eval(flv, test, nv, facts, flv.g.nodes_of(test._parent)[0])
+                        conds.append(tv == pol)
+                    if all(conds):
                         val = 'source'
             uni = _units_walk(flu, fu.node.body, nu, facts)
         except _NoEval:
@@ -2938,7 +2957,7 @@ def units(repo, out):
             out.ok(fu, fu.node, f"{cname}: value and units both come from "
                    f"{'the connected source output' if val == 'source' else 'the variable itself'}")
         else:
-            where = src_ifs[0] if (src_ifs and val == 'source' and facts['meta']) else fu.node
+            where = src_rets[0] if (src_rets and val == 'source' and facts['meta']) else fu.node
             desc = {'source': 'its connected source output (via _conns)', 'own': 'the variable itself'}
             out.bad(fv if where is not fu.node else fu, where,
                     f"for an {cname} name Case.__getitem__ returns the value of {desc[val]} but _get_units returns "
@@ -3263,6 +3282,17 @@ selftest(
          "                rowid = c.lastrowid\n                c.execute(\"INSERT INTO global_iterations(record_type, rowid, source) VALUES(?,?,?)\",\n                          ('system', rowid, source_system))"),
     Mutant('st-rowid-temp-counter', REC, "                c.execute(\"INSERT INTO global_iterations(record_type, rowid, source) VALUES(?,?,?)\",\n                          ('system', c.lastrowid, source_system))",
            "                rowid = self._counter\n                c.execute(\"INSERT INTO global_iterations(record_type, rowid, source) VALUES(?,?,?)\",\n                          ('system', rowid, source_system))", 'C17.store'),
+    # ---- third robustness round: split conditions / aliases in Case.__getitem__, role variable chosen once in System.record_iteration
+    Twin('tw-getitem-split-alias', CASE, "            if name in self._prom2abs['input'] and name not in self._abs2prom['input']:\n                absin = self._prom2abs['input'][name][0]\n                absout = self._conns[absin]\n                try:\n                    return self.outputs[self._abs2prom['output'][absout]]\n                except KeyError:\n                    pass\n",
+         "            p2a_in = self._prom2abs['input']\n            if name in p2a_in:\n                if name not in self._abs2prom['input']:\n                    absout = self._conns[p2a_in[name][0]]\n                    try:\n                        return self.outputs[self._abs2prom['output'][absout]]\n                    except KeyError:\n                        pass\n"),
+    Mutant('un-split-lost-inner', CASE, "            if name in self._prom2abs['input'] and name not in self._abs2prom['input']:\n                absin = self._prom2abs['input'][name][0]\n                absout = self._conns[absin]\n                try:\n                    return self.outputs[self._abs2prom['output'][absout]]\n                except KeyError:\n                    pass\n",
+           "            p2a_in = self._prom2abs['input']\n            if name in p2a_in:\n                if True:\n                    absout = self._conns[p2a_in[name][0]]\n                    try:\n                        return self.outputs[self._abs2prom['output'][absout]]\n                    except KeyError:\n                        pass\n",
+           'C17.units'),
+    Twin('tw-phys-role-variable', SYS, "                if 'nonlinear' in method:\n                    inputs, outputs, residuals = self.get_nonlinear_vectors()\n                    vec_name = 'nonlinear'\n                else:\n                    inputs, outputs, residuals = self.get_linear_vectors()\n                    vec_name = 'linear'\n            else:\n                # outside of a run, just record nonlinear vectors\n                inputs, outputs, residuals = self.get_nonlinear_vectors()\n                vec_name = 'nonlinear'\n",
+         "                vec_name = 'nonlinear' if 'nonlinear' in method else 'linear'\n            else:\n                vec_name = 'nonlinear'\n            if vec_name == 'linear':\n                inputs, outputs, residuals = self.get_linear_vectors()\n            else:\n                inputs, outputs, residuals = self.get_nonlinear_vectors()\n".replace("vec_name = 'nonlinear' if 'nonlinear' in method else 'linear'", "vec_name = 'nonlinear'\n                if 'nonlinear' not in method:\n                    vec_name = 'linear'")),
+    Mutant('ph-role-variable-swapped', SYS, "                if 'nonlinear' in method:\n                    inputs, outputs, residuals = self.get_nonlinear_vectors()\n                    vec_name = 'nonlinear'\n                else:\n                    inputs, outputs, residuals = self.get_linear_vectors()\n                    vec_name = 'linear'\n            else:\n                # outside of a run, just record nonlinear vectors\n                inputs, outputs, residuals = self.get_nonlinear_vectors()\n                vec_name = 'nonlinear'\n",
+           "                vec_name = 'nonlinear'\n                if 'nonlinear' not in method:\n                    vec_name = 'linear'\n            else:\n                vec_name = 'nonlinear'\n            if vec_name != 'linear':\n                inputs, outputs, residuals = self.get_linear_vectors()\n            else:\n                inputs, outputs, residuals = self.get_nonlinear_vectors()\n",
+           'C17.phys'),
     # ---- units (value/units provenance of Case.get_val)
     Mutant('un-own-units', CASE, "return meta[self._conns[abs_name]]['units']", "return meta[abs_name]['units']", 'C17.units'),
     Mutant('un-output-via-conns', CASE, "            abs_name = prom2abs['output'][name][0]\n            return meta[abs_name]['units']",
